@@ -26,7 +26,9 @@ CONSTANTS BUDGET,          \* how many fields may deviate from the normal messag
 (* ---- classes ---- *)
 CTypes   == {"absent", "plain", "html", "mixed", "related", "alternative", "other", "unparsable",
              "plainlq", "plainqs", "plainempty"}    \* text/plain with a damaged charset parameter: lone quote, quoted ";...", empty
-Bounds   == {"ok", "absent", "empty", "mismatch"}
+(* special / long70: well-formed boundaries out of the rarer bchars of RFC 2046 ( ' ( ) + _ , - . / : = ? ) and of the maximal length *)
+OkBounds == {"ok", "special", "long70"}
+Bounds   == OkBounds \cup {"absent", "empty", "mismatch"}
 (* b64cutN: well-formed base64 that ends N characters short of a complete group of four (a message cut in transit) *)
 B64Cuts  == {"b64cut1", "b64cut2", "b64cut3"}
 (* cteparen / ctecomment: a known token followed by parentheses - unbalanced in the wrong order, or an RFC 5322 comment *)
@@ -37,6 +39,7 @@ Dates    == {"ok", "bad", "absent"}
 PTypes   == {"plain", "html", "related", "alternative", "mixed", "noctype", "other", "twoctypes"}
 Disps    == {"absent", "attachment", "inline", "other", "empty"}
 FNames   == {"absent", "quoted", "unquoted2", "unquoted1", "empty", "quoteonly", "unterminated", "dup", "encoded", "encodedkoi",
+             "longcjk", "longumlaut", "long300", "long2231",   \* names beyond 255 octets: 90 CJK characters, 150 umlauts, 300 letters, RFC 2231 continuations
              "sizeneg", "sizehuge", "sizeok"}       \* a size parameter next to the file name: negative, absurdly large, plausible
 Truncs   == {"none", "header", "boundary", "body", "noclose"}
 
